@@ -353,9 +353,10 @@ pub fn determine_tls_version(
         tls_parser::TlsVersion::Tls11 => TlsVersion::V1_1,
         tls_parser::TlsVersion::Tls10 => TlsVersion::V1_0,
         tls_parser::TlsVersion::Ssl30 => TlsVersion::Ssl3_0,
+        tls_parser::TlsVersion(0x0002) => TlsVersion::Ssl2_0,
         _ => {
-            debug!("Unknown/unsupported TLS version {:?}, defaulting to TLS 1.2", legacy_version);
-            TlsVersion::V1_2
+            debug!("Unknown/unsupported TLS version {:?}", legacy_version);
+            TlsVersion::Unknown(legacy_version.0)
         }
     }
 }
